@@ -6,9 +6,11 @@ Local Open Scope N_scope.
 
 (* configurations the proofs are about: batches are not empty (plogReadBatchSize > 0) and the
    view storage writes the position after the workspace batches *)
-Record cfg_ok (c : cfg) : Prop := { ok_batch : 0 < c_batch c; ok_nulllast : c_nulllast c = true }.
+Record cfg_ok (c : cfg) : Prop := { ok_batch : 0 < c_batch c; ok_nulllast : c_nulllast c = true; ok_descmust : c_descmust c = true }.
 
-Definition pend (j : prj) : list N := match pc j with PIn o => [o] | _ => [] end.
+(* the event the operator has taken and not yet handed to the projector function / is inside it *)
+Definition took (p : ppc) : option N := match p with PLook o | PIn o => Some o | _ => None end.
+Definition pend (j : prj) : list N := match pc j with PLook o | PIn o => [o] | _ => [] end.
 
 (* structure: bounds, the reader's batch, the queue, the operator's program counter *)
 Record InvS (s : st) : Prop := {
@@ -24,8 +26,8 @@ Record InvS (s : st) : Prop := {
   i_q1 : alive (sj s) = true -> actv (sj s) = true -> stopped (sr s) = false ->
          q (sj s) = seqN (g_done (sg s) + 1) (length (q (sj s))) /\ rd (sr s) = g_done (sg s) + len (q (sj s));
   i_f0 : pc (sj s) <> PIdle -> alive (sj s) = true /\ actv (sj s) = true;
-  i_pin : forall o, pc (sj s) = PIn o -> cur (sj s) = o /\ g_done (sg s) = o /\ g_init (sg s) < o /\ trig (lg (sp s)) o = true;
-  i_c1 : cur (sj s) = 0 \/ cur (sj s) = g_done (sg s);
+  i_pin : forall o, took (pc (sj s)) = Some o -> cur (sj s) = o /\ g_done (sg s) = o /\ g_init (sg s) < o /\ trig (lg (sp s)) o = true;
+  i_c1 : actv (sj s) = true -> cur (sj s) = 0 \/ cur (sj s) = g_done (sg s);
   i_c2 : cur (sj s) = 0 -> bv (sj s) = [] /\ bm (sj s) = [];
   i_k3 : alive (sj s) = true -> actv (sj s) = true -> stopped (sr s) = false -> pc (sj s) = PIdle ->
          armed (sj s) = false -> tickp (sj s) = false -> bv (sj s) = [] /\ bm (sj s) = [];
@@ -44,12 +46,12 @@ Record InvE (g : bool) (c : cfg) (s : st) : Prop := {
   i_t2 : forall o, o <= pos (sp s) -> trig (lg (sp s)) o = true -> In o (eff (sp s));
   i_j1 : forall o, o <= g_init (sg s) -> trig (lg (sp s)) o = true -> In o (eff (sp s));
   i_j2 : alive (sj s) = true -> actv (sj s) = true -> forall o, g_init (sg s) < o <= g_done (sg s) -> trig (lg (sp s)) o = true ->
-         In o (eff (sp s)) \/ In o (bv (sj s)) \/ pc (sj s) = PIn o;
+         In o (eff (sp s)) \/ In o (bv (sj s)) \/ took (pc (sj s)) = Some o;
   i_j3 : forall w, pc (sj s) = PFl w -> forall o, In o (bv (sj s)) -> In o (eff (sp s)) \/ In o (fv (sj s));
   i_t2m : g = true -> forall o, o <= pos (sp s) -> trig (lg (sp s)) o = true -> mailev c (lg (sp s)) o = true -> In o (mails (sp s));
   i_j1m : g = true -> forall o, o <= g_init (sg s) -> trig (lg (sp s)) o = true -> mailev c (lg (sp s)) o = true -> In o (mails (sp s));
   i_j2m : g = true -> alive (sj s) = true -> actv (sj s) = true -> forall o, g_init (sg s) < o <= g_done (sg s) ->
-          trig (lg (sp s)) o = true -> mailev c (lg (sp s)) o = true -> In o (mails (sp s)) \/ In o (bm (sj s)) \/ pc (sj s) = PIn o;
+          trig (lg (sp s)) o = true -> mailev c (lg (sp s)) o = true -> In o (mails (sp s)) \/ In o (bm (sj s)) \/ took (pc (sj s)) = Some o;
   i_j3m : g = true -> forall w, pc (sj s) = PFl w -> forall o, In o (bm (sj s)) -> In o (mails (sp s)) \/ In o (fm (sj s))
 }.
 
